@@ -131,7 +131,11 @@ pub fn compare_cell<M: ConvexCellMarker + 'static>(c: &Case, cell: &ConvexCell<M
     // analytic bound on what the snapping of a close neighbour can do to the presence of a small
     // face (the measured variation samples such discrete events too sparsely)
     let s_min = sites_rel(c, i, 1).iter().map(|x| x.2.length()).fold(f64::INFINITY, f64::min);
-    let presence_slack = if s_min.is_finite() { tol::snap_theta(c, s_min) * b.r3 * 2. * std::f64::consts::PI * b.r3 } else { 0. };
+    // (extent: of the reference cell or of the library's cell, whichever is larger; a sliver that
+    // pivots about a close pair may be cut short in one and extend across the box in the other)
+    let r_lib = cell.vertices.iter().map(|v| v.loc.distance(cell.loc)).fold(0., f64::max);
+    let r_ext = b.r3.max(r_lib.min(2. * c.eff_width().iter().map(|w| w * w).sum::<f64>().sqrt()));
+    let presence_slack = if s_min.is_finite() { tol::snap_theta(c, s_min) * r_ext * 2. * std::f64::consts::PI * r_ext } else { 0. };
     // --- volume and centroid
     let vc: VolumeCentroidIntegral = cell.compute_cell_integral::<(), VolumeCentroidIntegral>(());
     let tolv = VAR_FACTOR * b.var_volume + eps * four_pi * b.r3 * b.r3 + 1e-11 * r.volume;
@@ -177,7 +181,10 @@ pub fn compare_cell<M: ConvexCellMarker + 'static>(c: &Case, cell: &ConvexCell<M
             continue;
         }
         let fv = &b.faces[&rf.tag];
-        let tola = VAR_FACTOR * fv.area + eps * (rf.perimeter + 2. * std::f64::consts::PI * eps) + 1e-11 * rf.area;
+        // (presence_slack: the bisector with a very close neighbour is only defined up to a rotation;
+        // the random replicas cannot sample the exactly aligned configuration that the rounding of
+        // `generator + shift` produces systematically, so the analytic bound is added for every face)
+        let tola = VAR_FACTOR * fv.area + eps * (rf.perimeter + 2. * std::f64::consts::PI * eps) + 1e-11 * rf.area + presence_slack;
         match lib.get(&rf.tag) {
             Some((a, cen)) => {
                 let da = (a - rf.area).abs();
